@@ -2,6 +2,8 @@ package checks
 
 import (
 	"fmt"
+	apierrors "k8s.io/apimachinery/pkg/api/errors"
+	"k8s.io/apimachinery/pkg/runtime/schema"
 	"strings"
 	"time"
 
@@ -196,7 +198,7 @@ func c20Controller(r *ev.Rec) {
 	if r.Tier == "thorough" {
 		depth = 7
 	}
-	ops := []string{"success", "failure", "restart", "nodeclass-change", "nodepool-change"}
+	ops := []string{"success", "failure", "restart", "nodeclass-change", "nodepool-change", "failure+conflict-on-nodepool-patch"}
 	dims := make([]int, depth)
 	for i := range dims {
 		dims[i] = len(ops)
@@ -256,7 +258,11 @@ func c20Controller(r *ev.Rec) {
 				must(w.Raw.Get(w.Ctx, client.ObjectKey{Name: "default"}, cur))
 				_, _ = health.Reconcile(w.Ctx, cur)
 				window, expect = nil, "Unknown"
-			case "success", "failure":
+			case "success", "failure", "failure+conflict-on-nodepool-patch":
+				conflict := ops[op] == "failure+conflict-on-nodepool-patch"
+				if conflict {
+					op = 1 // a failure like any other for the reference: ONE attempt failed, however often its write is retried
+				}
 				since := w.Clock.Now()
 				if ops[op] == "failure" {
 					since = since.Add(-16 * time.Minute)
@@ -268,7 +274,25 @@ func c20Controller(r *ev.Rec) {
 				if ops[op] == "success" {
 					w.KubeletRegister(nc, world.RegisterOpts{})
 				}
-				_, _ = ctrl.Reconcile(w.Ctx, w.GetNodeClaim(nc.Name))
+				if conflict {
+					// the NodePool status write of this reconcile (if it makes one) meets an optimistic-lock conflict; the
+					// controller retries
+					fired := false
+					w.Client.Hook = func(c *world.Call) error {
+						if !fired && c.Verb == "status-patch" && c.Kind == "NodePool" {
+							fired = true
+							return apierrors.NewConflict(schema.GroupResource{Resource: "nodepools"}, "default", fmt.Errorf("injected conflict"))
+						}
+						return nil
+					}
+					_, _ = ctrl.Reconcile(w.Ctx, w.GetNodeClaim(nc.Name))
+					w.Client.Hook = nil
+					if cur := w.GetNodeClaim(nc.Name); cur != nil && cur.DeletionTimestamp == nil {
+						_, _ = ctrl.Reconcile(w.Ctx, cur)
+					}
+				} else {
+					_, _ = ctrl.Reconcile(w.Ctx, w.GetNodeClaim(nc.Name))
+				}
 				window = withNext(window, ops[op] == "success")
 				f := 0
 				for _, b := range window {
